@@ -383,6 +383,26 @@ Section PassLemmas.
       intros Heq. subst t. apply is_prefix_length in H1. destruct p; cbn in *; [congruence|lia].
   Qed.
 
+  Lemma climb_start_prefix fuel : forall p ds, is_prefix (climb_start fuel p ds) p = true.
+  Proof.
+    induction fuel as [|f IH]; intros p ds; cbn; [apply is_prefix_refl|].
+    destruct (removelast p) as [|a r] eqn:E; [apply is_prefix_refl|].
+    destruct (mem_path (a :: r) ds); [apply is_prefix_refl|].
+    eapply is_prefix_trans; [apply IH|]. rewrite <- E. apply is_prefix_removelast.
+  Qed.
+
+  Lemma clean_parents_from_missing_anc fuel p ds t :
+    In t (clean_parents_from_missing fuel p ds) -> is_prefix t p = true /\ t <> p.
+  Proof.
+    unfold clean_parents_from_missing. intros H. apply clean_parents_anc in H as [H1 H2].
+    pose proof (climb_start_prefix fuel p ds) as H3. split; [eapply is_prefix_trans; eauto|].
+    intros ->. apply H2. apply is_prefix_antisym; auto.
+  Qed.
+
+  Arguments clean_parents_from_missing : simpl never.
+  Notation met_dir_phase := (Retention.met_dir_phase clean_parents_from_missing).
+  Notation tt_phase := (Retention.tt_phase clean_parents_from_missing).
+
   Definition eff_within (T : list path) (e : eff) : Prop :=
     match e with
     | ERm p => In p T
@@ -407,10 +427,10 @@ Section PassLemmas.
   Lemma Forall_within_mono T T' es : incl T T' -> Forall (eff_within T) es -> Forall (eff_within T') es.
   Proof. intros HI H. eapply Forall_impl; [|exact H]. intros e. apply eff_within_mono. exact HI. Qed.
 
-  Lemma parents_within T p fuel ds : In p T -> Forall (eff_within T) (map ERmEmpty (clean_parents fuel p ds)).
+  Lemma parents_within T p fuel ds : In p T -> Forall (eff_within T) (map ERmEmpty (clean_parents_from_missing fuel p ds)).
   Proof.
     intros Hp. apply Forall_forall. intros e He. apply in_map_iff in He as [t [<- Ht]].
-    apply clean_parents_anc in Ht as [H1 H2]. cbn. exists p. auto.
+    apply clean_parents_from_missing_anc in Ht as [H1 H2]. cbn. exists p. auto.
   Qed.
 
   Lemma met_dir_phase_within sel entries : forall ds,
@@ -445,24 +465,6 @@ Section PassLemmas.
     - eapply Forall_within_mono; [|apply IH]. intros x Hx. cbn. auto.
   Qed.
 
-  Lemma mmem_phase_within T l : forall mm, Forall (eff_within T) (fst (mmem_phase l mm)).
-  Proof.
-    induction l as [|s r IH]; intros mm; cbn; [constructor|].
-    destruct (mem_path (s_dir s) mm); [|constructor].
-    specialize (IH (del_path (s_dir s) mm)). destruct (mmem_phase r (del_path (s_dir s) mm)) as [es ok]. cbn in *.
-    constructor; [exact I|exact IH].
-  Qed.
-
-  Lemma mmem_phase_ok l : forall mm, NoDup (map s_dir l) -> (forall s, In s l -> In (s_dir s) mm) ->
-    mmem_phase l mm = (map (fun s => EMMemDel (s_dir s)) l, true).
-  Proof.
-    induction l as [|a r IH]; intros mm ND H; cbn; auto.
-    assert (Ha : mem_path (s_dir a) mm = true) by (apply mem_path_In, H; cbn; auto).
-    rewrite Ha. inversion ND as [|? ? Hn ND']; subst.
-    rewrite IH; auto. intros s Hs. apply In_del_path. split; [apply H; cbn; auto|].
-    intros E. apply Hn. rewrite E. apply in_map. exact Hs.
-  Qed.
-
   Definition met_keep hz org st := keep_of (sel_met hz org st) (mmeta st).
   Definition met_removed hz org st := filter (in_sel (sel_met hz org st)) (mmeta st).
   Definition met_tts hz org st :=
@@ -475,16 +477,13 @@ Section PassLemmas.
 
   Lemma met_effs_shape hz org st : sel_met hz org st <> [] ->
     met_effs hz org st =
-      let r := mmem_phase (ord (sel_met hz org st)) (mmem st) in
-      if snd r then
-        fst r ++ fst (met_dir_phase (sel_met hz org st) (mmeta st) (dirs st)) ++ met_tail hz org st
-        ++ tt_phase (met_tts hz org st) (snd (met_dir_phase (sel_met hz org st) (mmeta st) (dirs st)))
-      else fst r.
+      map (fun s => EMMemDel (s_dir s)) (ord (sel_met hz org st))
+      ++ fst (met_dir_phase (sel_met hz org st) (mmeta st) (dirs st))
+      ++ tt_phase (met_tts hz org st) (snd (met_dir_phase (sel_met hz org st) (mmeta st) (dirs st)))
+      ++ met_tail hz org st.
   Proof.
     unfold Retention.met_effs, met_tail, met_tts, met_keep, met_removed.
     destruct (sel_met hz org st) eqn:E; [congruence|]. intros _.
-    destruct (mmem_phase (ord (s :: l)) (mmem st)) as [mes ok]. cbn [fst snd].
-    destruct ok; cbn [negb]; [|reflexivity].
     destruct (met_dir_phase (s :: l) (mmeta st) (dirs st)) as [des ds1]. cbn [fst snd].
     destruct (keep_of (s :: l) (mmeta st)); reflexivity.
   Qed.
@@ -497,6 +496,13 @@ Section PassLemmas.
   Proof.
     induction l as [|a r IH]; cbn; auto. destruct (mem_path a r); cbn; intros H; [right; auto|].
     destruct H; auto.
+  Qed.
+
+  Lemma dedup_In_conv p l : In p l -> In p (dedup l).
+  Proof.
+    induction l as [|a r IH]; cbn; auto. intros [->|H].
+    - destruct (mem_path p r) eqn:E; [apply IH; apply mem_path_In; exact E|cbn; auto].
+    - destruct (mem_path a r); [auto|cbn; auto].
   Qed.
 
   Lemma met_tts_incl hz org st : incl (met_tts hz org st) (map s_tt (mmeta st)).
@@ -531,40 +537,31 @@ Section PassLemmas.
   Proof.
     intros HA. destruct (sel_met hz org st) eqn:E.
     - rewrite met_effs_nil by exact E. constructor.
-    - rewrite met_effs_shape by congruence. cbn zeta.
-      assert (W1 : Forall (eff_within (met_targets hz org st)) (fst (mmem_phase (ord (sel_met hz org st)) (mmem st))))
-        by apply mmem_phase_within.
-      assert (S1 : Forall (safe_for d) (fst (mmem_phase (ord (sel_met hz org st)) (mmem st))))
-        by (eapply Forall_impl; [|exact W1]; intros e; apply eff_within_safe; exact HA).
-      destruct (snd (mmem_phase (ord (sel_met hz org st)) (mmem st))); [|exact S1].
-      repeat (apply Forall_app; split); auto.
+    - rewrite met_effs_shape by congruence.
+      repeat (apply Forall_app; split).
+      + apply Forall_map_eff. intros; exact I.
       + eapply Forall_impl; [|apply met_dir_phase_within]. intros e He. eapply eff_within_safe; [|exact He].
         intros t Ht. apply HA. unfold met_targets. apply in_or_app. left. exact (met_removed_dirs hz org st t Ht).
-      + unfold met_tail. destruct (met_keep hz org st); repeat constructor.
       + eapply Forall_impl; [|apply tt_phase_within]. intros e He. eapply eff_within_safe; [|exact He].
         intros t Ht. apply HA. unfold met_targets. apply in_or_app. right. exact (met_tts_incl hz org st t Ht).
+      + unfold met_tail. destruct (met_keep hz org st); repeat constructor.
   Qed.
+
+  Lemma within_nomem T es : Forall (eff_within T) es -> Forall nomem es.
+  Proof. intros H. eapply Forall_impl; [|exact H]. intros e He. destruct e; cbn in *; auto. Qed.
 
   Lemma met_effs_frame hz org st :
     Forall noseg (met_effs hz org st) /\ Forall nomem (met_effs hz org st) /\ Forall novt (met_effs hz org st).
   Proof.
     destruct (sel_met hz org st) eqn:E.
     - rewrite met_effs_nil by exact E. repeat split; constructor.
-    - rewrite met_effs_shape by congruence. cbn zeta.
-      pose proof (mmem_phase_within [] (ord (sel_met hz org st)) (mmem st)) as W1.
+    - rewrite met_effs_shape by congruence.
       pose proof (met_dir_phase_within (sel_met hz org st) (mmeta st) (dirs st)) as W2.
       pose proof (tt_phase_within (met_tts hz org st) (snd (met_dir_phase (sel_met hz org st) (mmeta st) (dirs st)))) as W3.
       pose proof (met_tail_props hz org st) as T. cbn zeta in T.
-      apply within_noseg in W2 as W2'. apply within_noseg in W3 as W3'. apply within_noseg in W1 as W1'.
-      assert (M1 : Forall nomem (fst (mmem_phase (ord (sel_met hz org st)) (mmem st)))).
-      { clear. generalize (mmem st). induction (ord (sel_met hz org st)) as [|s r IH]; intros mm; cbn; [constructor|].
-        destruct (mem_path (s_dir s) mm); [|constructor].
-        specialize (IH (del_path (s_dir s) mm)). destruct (mmem_phase r (del_path (s_dir s) mm)). cbn in *. constructor; auto. exact I. }
-      destruct (snd (mmem_phase (ord (sel_met hz org st)) (mmem st))).
-      + repeat split; repeat (apply Forall_app; split); try tauto.
-        * clear -W2. induction W2; constructor; auto. destruct x; cbn in *; auto.
-        * clear -W3. induction W3; constructor; auto. destruct x; cbn in *; auto.
-      + repeat split; tauto.
+      pose proof (within_noseg _ _ W2) as W2'. pose proof (within_noseg _ _ W3) as W3'.
+      pose proof (within_nomem _ _ W2) as M2. pose proof (within_nomem _ _ W3) as M3.
+      repeat split; repeat (apply Forall_app; split); try tauto; apply Forall_map_eff; intros; exact I.
   Qed.
 
   Lemma NoDup_map_filter {A B} (f : A -> B) (g : A -> bool) l : NoDup (map f l) -> NoDup (map f (filter g l)).
@@ -577,25 +574,16 @@ Section PassLemmas.
   (* every selected metrics segment is known to the in-memory metadata (true after a restart) *)
   Definition mmem_ok hz org st : Prop := forall s, In s (sel_met hz org st) -> In (s_dir s) (mmem st).
 
-  Lemma met_ok hz org st : NoDup (map s_dir (mmeta st)) -> mmem_ok hz org st ->
-    mmem_phase (ord (sel_met hz org st)) (mmem st) = (map (fun s => EMMemDel (s_dir s)) (ord (sel_met hz org st)), true).
-  Proof.
-    intros ND OK. apply mmem_phase_ok.
-    - eapply Permutation_NoDup; [apply Permutation_map, Permutation_sym, ord_perm|]. apply NoDup_map_filter. exact ND.
-    - intros s Hs. apply OK. apply ord_In. exact Hs.
-  Qed.
-
   Lemma sel_met_sub hz org st s : In s (sel_met hz org st) -> In s (mmeta st) /\ expired hz org s = true.
   Proof. unfold sel_met. apply filter_In. Qed.
   Lemma sel_log_sub hz org st s : In s (sel_log hz org st) -> In s (segmeta st) /\ expired hz org s = true.
   Proof. unfold sel_log. apply filter_In. Qed.
 
-  Lemma met_mmeta hz org st : NoDup (map s_dir (mmeta st)) -> mmem_ok hz org st ->
-    mmeta (apply_effs (met_effs hz org st) st) = met_keep hz org st.
+  Lemma met_mmeta hz org st : mmeta (apply_effs (met_effs hz org st) st) = met_keep hz org st.
   Proof.
-    intros ND OK. destruct (sel_met hz org st) eqn:E.
+    destruct (sel_met hz org st) eqn:E.
     - rewrite met_effs_nil by exact E. unfold met_keep. rewrite E. symmetry. apply keep_of_nil.
-    - rewrite met_effs_shape by congruence. cbn zeta. rewrite met_ok by assumption. cbn [fst snd].
+    - rewrite met_effs_shape by congruence.
       rewrite mmeta_apply, !fold_left_app.
       rewrite (fold_mm_nomm (map _ _)) by (apply Forall_map_eff; intros; exact I).
       rewrite (fold_mm_nomm (fst (met_dir_phase _ _ _))) by (eapply within_noseg, met_dir_phase_within).
@@ -621,32 +609,49 @@ Section PassLemmas.
     apply Forall_app. split; auto. apply Forall_map_eff. intros; exact I.
   Qed.
 
-  Lemma met_mmem hz org st q : NoDup (map s_dir (mmeta st)) -> mmem_ok hz org st ->
+  Lemma met_mmem hz org st q :
     (In q (mmem (apply_effs (met_effs hz org st) st)) <->
      In q (mmem st) /\ forall s, In s (sel_met hz org st) -> s_dir s <> q).
   Proof.
-    intros ND OK. destruct (sel_met hz org st) eqn:E.
+    destruct (sel_met hz org st) eqn:E.
     - rewrite met_effs_nil by exact E. cbn. split; [intros H; split; auto; intros s []|tauto].
-    - rewrite met_effs_shape by congruence. cbn zeta. rewrite met_ok by assumption. cbn [fst snd].
+    - rewrite met_effs_shape by congruence.
       rewrite mmem_apply, !fold_left_app.
-      rewrite (fold_mmem_nommem (tt_phase _ _)) by apply tt_phase_nommem.
       rewrite (fold_mmem_nommem (met_tail _ _ _)) by apply met_tail_props.
+      rewrite (fold_mmem_nommem (tt_phase _ _)) by apply tt_phase_nommem.
       rewrite (fold_mmem_nommem (fst (met_dir_phase _ _ _))) by apply met_dir_phase_nommem.
       rewrite fold_mmem_del. rewrite E.
       split; intros [H1 H2]; split; auto; intros x Hx; apply H2; apply ord_In; exact Hx.
   Qed.
 
-  Lemma met_dirs_gone hz org st s q : NoDup (map s_dir (mmeta st)) -> mmem_ok hz org st ->
+  Lemma met_dirs_gone hz org st s q :
     In s (sel_met hz org st) -> is_prefix (s_dir s) q = true -> ~ In q (dirs (apply_effs (met_effs hz org st) st)).
   Proof.
-    intros ND OK Hs Hp. assert (NE : sel_met hz org st <> []) by (intros E; rewrite E in Hs; contradiction).
-    rewrite met_effs_shape by exact NE. cbn zeta. rewrite met_ok by assumption. cbn [fst snd].
+    intros Hs Hp. assert (NE : sel_met hz org st <> []) by (intros E; rewrite E in Hs; contradiction).
+    rewrite met_effs_shape by exact NE.
     pose proof (met_dir_phase_has (sel_met hz org st) (mmeta st) (dirs st) s (proj1 (sel_met_sub _ _ _ _ Hs)) (in_sel_self _ _ Hs)) as HI.
     apply in_split in HI as [a [b HI]]. rewrite HI. rewrite dirs_apply.
-    replace (map (fun s0 => EMMemDel (s_dir s0)) (ord (sel_met hz org st)) ++ (a ++ ERm (s_dir s) :: b) ++ met_tail hz org st ++ tt_phase (met_tts hz org st) (snd (met_dir_phase (sel_met hz org st) (mmeta st) (dirs st))))
-      with ((map (fun s0 => EMMemDel (s_dir s0)) (ord (sel_met hz org st)) ++ a) ++ ERm (s_dir s) :: (b ++ met_tail hz org st ++ tt_phase (met_tts hz org st) (snd (met_dir_phase (sel_met hz org st) (mmeta st) (dirs st)))))
-      by (rewrite <- !app_assoc; reflexivity).
-    apply fold_dirs_removed. exact Hp.
+    rewrite <- !app_assoc. rewrite app_assoc. cbn [app]. apply fold_dirs_removed. exact Hp.
+  Qed.
+
+  Lemma tt_phase_has tts : forall ds t, In t tts -> In (ERm t) (tt_phase tts ds).
+  Proof.
+    induction tts as [|a r IH]; intros ds t H; [contradiction|]. destruct H as [->|H]; cbn; auto.
+    right. apply in_or_app. right. apply IH. exact H.
+  Qed.
+
+  (* the tags-tree directory of a removed segment that no preserved line names is gone afterwards *)
+  Lemma met_tt_gone hz org st t q :
+    In t (met_tts hz org st) -> is_prefix t q = true -> ~ In q (dirs (apply_effs (met_effs hz org st) st)).
+  Proof.
+    intros Ht Hp. assert (NE : sel_met hz org st <> []).
+    { intros E. unfold met_tts, met_removed in Ht. rewrite E in Ht. apply filter_In in Ht as [Ht _].
+      apply (Permutation_in _ (ordp_perm _)) in Ht. apply dedup_In in Ht. apply in_map_iff in Ht as [x [_ Hx]].
+      apply filter_In in Hx as [_ Hx]. discriminate. }
+    rewrite met_effs_shape by exact NE.
+    pose proof (tt_phase_has (met_tts hz org st) (snd (met_dir_phase (sel_met hz org st) (mmeta st) (dirs st))) t Ht) as HI.
+    apply in_split in HI as [a [b HI]]. rewrite HI. rewrite dirs_apply.
+    rewrite <- !app_assoc. rewrite !app_assoc. rewrite <- (app_assoc _ (ERm t :: b)). cbn [app]. apply fold_dirs_removed. exact Hp.
   Qed.
 
   Lemma met_dirs_safe hz org st d : In d (dirs st) -> (forall t, In t (met_targets hz org st) -> apart d t = true) ->
@@ -763,15 +768,7 @@ Section PassLemmas.
 
   Section Run.
     Variables (hz : N) (org : Z) (st : store).
-    Hypothesis ND : NoDup (map s_dir (mmeta st)).
-    Hypothesis OK : mmem_ok hz org st.
 
-    Let ND1 : NoDup (map s_dir (mmeta (st_log hz org st))).
-    Proof. unfold st_log. destruct (log_frame hz org st) as [E _]. cbn in E. rewrite E. exact ND. Qed.
-    Let OK1 : mmem_ok hz org (st_log hz org st).
-    Proof.
-      unfold mmem_ok. rewrite sel_met_log. unfold st_log. destruct (log_frame hz org st) as [_ [E _]]. cbn in E. rewrite E. exact OK.
-    Qed.
 
     Lemma run_segmeta : segmeta (run hz org st) = keep_of (sel_log hz org st) (segmeta st).
     Proof.
@@ -783,7 +780,7 @@ Section PassLemmas.
     Lemma run_mmeta : mmeta (run hz org st) = keep_of (sel_met hz org st) (mmeta st).
     Proof.
       rewrite run_unfold. destruct (vt_frame org (st_met hz org st)) as [_ [E _]]. cbn in E. rewrite E.
-      unfold st_met. rewrite met_mmeta by assumption. unfold met_keep. rewrite sel_met_log.
+      unfold st_met. rewrite met_mmeta. unfold met_keep. rewrite sel_met_log.
       unfold st_log. destruct (log_frame hz org st) as [E2 _]. cbn in E2. rewrite E2. reflexivity.
     Qed.
 
@@ -800,7 +797,7 @@ Section PassLemmas.
     Lemma run_mmem q : In q (mmem (run hz org st)) <-> In q (mmem st) /\ forall s, In s (sel_met hz org st) -> s_dir s <> q.
     Proof.
       rewrite run_unfold. destruct (vt_frame org (st_met hz org st)) as [_ [_ [_ [E _]]]]. cbn in E. rewrite E.
-      unfold st_met. rewrite met_mmem by assumption. rewrite sel_met_log.
+      unfold st_met. rewrite met_mmem. rewrite sel_met_log.
       unfold st_log. destruct (log_frame hz org st) as [_ [E2 _]]. cbn in E2. rewrite E2. reflexivity.
     Qed.
 
@@ -841,6 +838,17 @@ Section PassLemmas.
         unfold st_log. destruct (log_frame hz org st) as [_ [_ [E2 _]]]. cbn in E2. rewrite E2. exact Hv.
       - unfold in_use. unfold st_met at 1 2. destruct (met_frame hz org (st_log hz org st)) as [E [_ [_ E3]]]. cbn in E, E3. rewrite E, E3.
         unfold st_log. rewrite log_segmeta. destruct (log_frame hz org st) as [_ [_ [_ E4]]]. cbn in E4. rewrite E4. exact Hu.
+    Qed.
+    Lemma met_tts_log_gen : met_tts hz org (st_log hz org st) = met_tts hz org st.
+    Proof.
+      unfold met_tts, met_keep, met_removed. rewrite sel_met_log.
+      unfold st_log. destruct (log_frame hz org st) as [E _]. cbn in E. rewrite E. reflexivity.
+    Qed.
+
+    Lemma run_tt_gone t q : In t (met_tts hz org st) -> is_prefix t q = true -> ~ In q (dirs (run hz org st)).
+    Proof.
+      intros Ht Hq. rewrite run_dirs_eq. unfold st_met. apply met_tt_gone with (t := t); auto.
+      rewrite met_tts_log_gen. exact Ht.
     Qed.
   End Run.
 
@@ -933,18 +941,30 @@ Section PassLemmas.
       apply filter_In in Hx as [Hx Fx]. assert (x = s) by (eapply NoDup_map_inj; eauto). subst. congruence.
   Qed.
 
+  (* a selected line's tags tree that no preserved line names is in the list of trees to delete *)
+  Lemma met_tts_In hz org st s : In s (sel_met hz org st) ->
+    (forall s', In s' (mmeta st) -> expired hz org s' = false -> s_tt s' <> s_tt s) ->
+    NoDup (map s_dir (mmeta st)) -> In (s_tt s) (met_tts hz org st).
+  Proof.
+    intros Hs Hn ND. unfold met_tts. apply filter_In. split.
+    - apply (Permutation_in _ (Permutation_sym (ordp_perm _))). apply dedup_In_conv. apply in_map.
+      unfold met_removed. apply filter_In. split; [apply filter_In in Hs; tauto|apply in_sel_self; exact Hs].
+    - apply negb_true_iff. apply mem_path_false. intros HI. apply in_map_iff in HI as [x [E Hx]].
+      unfold met_keep, sel_met in Hx. rewrite keep_of_filter in Hx by exact ND. apply filter_In in Hx as [Hx Fx].
+      apply negb_true_iff in Fx. eapply Hn; eauto.
+  Qed.
+
   (* ---------------- main theorems ---------------- *)
   Section Main.
     Variables (hz : N) (org : Z) (st : store).
     Hypothesis Hwf : wf st = true.
-    Hypothesis OK : mmem_ok hz org st.
     Let W : WF st := wf_WF st Hwf.
     Let st' := run hz org st.
 
     Lemma listing_after s : In s (segmeta st ++ mmeta st) ->
       (In s (segmeta st' ++ mmeta st') <-> expired hz org s = false).
     Proof.
-      intros Hs. unfold st'. rewrite run_segmeta, run_mmeta by (auto using wf_nd_mm).
+      intros Hs. unfold st'. rewrite run_segmeta, run_mmeta.
       unfold sel_log, sel_met. rewrite !keep_of_filter by (auto using wf_nd_seg, wf_nd_mm).
       rewrite in_app_iff, !filter_In, !negb_true_iff. apply in_app_or in Hs.
       split; [tauto|]. intros E. destruct Hs; auto.
@@ -973,7 +993,7 @@ Section PassLemmas.
           + apply sel_met_sub in Hx as [Hx _]. apply NoDup_app_r in ND.
             eapply (NoDup_app_disj _ _ (s_dir s) ND); apply in_map; eauto.
         - destruct Hx as [Hx|Hx]; [apply sel_log_sub in Hx|apply sel_met_sub in Hx]; destruct Hx; congruence. }
-      apply run_dirs_safe; auto using wf_nd_mm.
+      apply run_dirs_safe; auto.
       - intros x Hx. destruct (wf_same_or_apart st W x s) as [->|H]; auto.
         + apply sel_log_sub in Hx as [Hx _]. apply in_or_app. auto.
         + exfalso. eapply NS; eauto.
@@ -989,7 +1009,7 @@ Section PassLemmas.
       - intros H. split; [eapply run_dirs_incl; exact H|].
         destruct (expired hz org s) eqn:E; auto. exfalso. apply in_app_or in Hs as [Hs|Hs].
         + eapply (run_dirs_gone_log hz org st s); eauto using is_prefix_refl. apply filter_In. auto.
-        + eapply (run_dirs_gone_met hz org st (wf_nd_mm st W) OK s); eauto using is_prefix_refl. apply filter_In. auto.
+        + eapply (run_dirs_gone_met hz org st s); eauto using is_prefix_refl. apply filter_In. auto.
       - intros [Hd E]. apply survivor_dir; auto. apply in_app_or in Hs. apply in_or_app. destruct Hs; auto. right. apply in_or_app. auto.
     Qed.
 
@@ -1014,7 +1034,7 @@ Section PassLemmas.
       - rewrite (wf_met _ W s) by exact Hs.
         intros H. apply andb_true_iff in H as [H2 H3]. apply mem_path_In in H2, H3.
         apply andb_true_iff. split.
-        + apply mem_path_In. unfold st'. apply run_mmem; auto using wf_nd_mm. split; auto. intros x Hx Ed.
+        + apply mem_path_In. unfold st'. apply run_mmem. split; auto. intros x Hx Ed.
           apply sel_met_sub in Hx as [Hx Ex]. assert (x = s) by (eapply NoDup_map_inj; eauto; apply wf_nd_mm; exact W). subst. congruence.
         + apply mem_path_In. apply survivor_dir; auto.
     Qed.
@@ -1037,7 +1057,7 @@ Section PassLemmas.
     Proof.
       split; [|split].
       - unfold st'. rewrite run_segmeta. unfold sel_log. apply keep_of_filter. apply wf_nd_seg; exact W.
-      - unfold st'. rewrite run_mmeta by (auto using wf_nd_mm). unfold sel_met. apply keep_of_filter. apply wf_nd_mm; exact W.
+      - unfold st'. rewrite run_mmeta. unfold sel_met. apply keep_of_filter. apply wf_nd_mm; exact W.
       - intros s Hs Hd. rewrite (listing_after s Hs). destruct (retention_selects_exactly s Hs) as [_ H2]. rewrite H2. tauto.
     Qed.
 
@@ -1107,7 +1127,6 @@ Section PassLemmas.
   Section Interrupt.
     Variables (hz : N) (org : Z) (st : store).
     Hypothesis Hwf : wf st = true.
-    Hypothesis OK : mmem_ok hz org st.
     Let W : WF st := wf_WF st Hwf.
     Let exp := expired hz org.
     Let nexp := fun s => negb (expired hz org s).
@@ -1158,19 +1177,21 @@ Section PassLemmas.
           * right. split; auto. intros s0 Hs Hx q Hq Hin. apply H2 in Hin. eapply GONE; eauto.
     Qed.
 
-    Let ND1 : NoDup (map s_dir (mmeta (st_log hz org st))).
-    Proof. unfold st_log. destruct (log_frame hz org st) as [E _]. cbn in E. rewrite E. apply wf_nd_mm. exact W. Qed.
-    Let OK1 : mmem_ok hz org (st_log hz org st).
-    Proof.
-      unfold mmem_ok. rewrite sel_met_log. unfold st_log. destruct (log_frame hz org st) as [_ [E _]]. cbn in E. rewrite E. exact OK.
-    Qed.
     Let MM1 : mmeta (st_log hz org st) = mmeta st.
     Proof. unfold st_log. destruct (log_frame hz org st) as [E _]. exact E. Qed.
 
+    Lemma met_tts_log : met_tts hz org (st_log hz org st) = met_tts hz org st.
+    Proof. unfold met_tts, met_keep, met_removed. rewrite sel_met_log, MM1. reflexivity. Qed.
+
+    (* after any prefix metricmeta.json is the old file, or the new one and then every selected
+       metrics segment directory AND every tags-tree directory that goes with them is already gone
+       (the file is rewritten last) *)
     Lemma prefix_mmeta k :
       let X := interrupted k hz org st in
       mmeta X = mmeta st \/
-      (mmeta X = filter nexp (mmeta st) /\ forall s, In s (mmeta st) -> exp s = true -> ~ In (s_dir s) (dirs X)).
+      (mmeta X = filter nexp (mmeta st) /\
+       (forall s, In s (mmeta st) -> exp s = true -> ~ In (s_dir s) (dirs X)) /\
+       (forall t q, In t (met_tts hz org st) -> is_prefix t q = true -> ~ In q (dirs X))).
     Proof.
       cbn zeta. unfold Retention.interrupted. rewrite mmeta_apply, dirs_apply, pass_effs_unfold.
       pose proof (log_effs_frame hz org st) as [_ [NL _]].
@@ -1179,7 +1200,7 @@ Section PassLemmas.
       - left. apply fold_mm_nomm. apply Forall_firstn. repeat (apply Forall_app; split); auto.
         apply met_effs_nomm_when_nil. rewrite sel_met_log. exact E.
       - assert (NE : sel_met hz org (st_log hz org st) <> []) by (rewrite sel_met_log; congruence).
-        rewrite (met_effs_shape hz org (st_log hz org st) NE). cbn zeta. rewrite met_ok by assumption. cbn [fst snd].
+        rewrite (met_effs_shape hz org (st_log hz org st) NE).
         set (mes := map (fun s0 => EMMemDel (s_dir s0)) (ord (sel_met hz org (st_log hz org st)))).
         set (dph := met_dir_phase (sel_met hz org (st_log hz org st)) (mmeta (st_log hz org st)) (dirs (st_log hz org st))).
         set (tts := tt_phase (met_tts hz org (st_log hz org st)) (snd dph)).
@@ -1187,32 +1208,41 @@ Section PassLemmas.
         set (ve := vt_effs org (st_met hz org st)).
         assert (KF : met_keep hz org (st_log hz org st) = filter nexp (mmeta st)).
         { unfold met_keep. rewrite sel_met_log, MM1. unfold sel_met. apply keep_of_filter. apply wf_nd_mm. exact W. }
-        set (R := le ++ mes ++ fst dph).
+        set (R := le ++ mes ++ fst dph ++ tts).
         assert (GONE : forall s0, In s0 (mmeta st) -> exp s0 = true -> ~ In (s_dir s0) (fold_left step_dirs R (dirs st))).
         { intros s0 Hs Hx. assert (Hsel : In s0 (sel_met hz org (st_log hz org st))) by (rewrite sel_met_log; apply filter_In; auto).
           pose proof (met_dir_phase_has (sel_met hz org (st_log hz org st)) (mmeta (st_log hz org st)) (dirs (st_log hz org st)) s0) as HI.
           assert (Hs' : In s0 (mmeta (st_log hz org st))) by (rewrite MM1; exact Hs).
           specialize (HI Hs' (in_sel_self _ _ Hsel)). fold dph in HI.
           apply in_split in HI as [a [b HI]]. unfold R. rewrite HI.
-          replace (le ++ mes ++ a ++ ERm (s_dir s0) :: b) with ((le ++ mes ++ a) ++ ERm (s_dir s0) :: b) by (rewrite <- !app_assoc; reflexivity).
+          replace (le ++ mes ++ (a ++ ERm (s_dir s0) :: b) ++ tts) with ((le ++ mes ++ a) ++ ERm (s_dir s0) :: (b ++ tts)) by (rewrite <- !app_assoc; reflexivity).
           apply fold_dirs_removed. apply is_prefix_refl. }
+        assert (TGONE : forall t q, In t (met_tts hz org st) -> is_prefix t q = true -> ~ In q (fold_left step_dirs R (dirs st))).
+        { intros t q Ht Hq. rewrite <- met_tts_log in Ht.
+          pose proof (tt_phase_has (met_tts hz org (st_log hz org st)) (snd dph) t Ht) as HI. fold tts in HI.
+          apply in_split in HI as [a [b HI]]. unfold R. rewrite HI.
+          replace (le ++ mes ++ fst dph ++ a ++ ERm t :: b) with ((le ++ mes ++ fst dph ++ a) ++ ERm t :: b) by (rewrite <- !app_assoc; reflexivity).
+          apply fold_dirs_removed. exact Hq. }
         assert (NR : Forall nomm R).
         { unfold R. repeat (apply Forall_app; split); auto.
           - apply Forall_map_eff; intros; exact I.
-          - eapply within_noseg. apply met_dir_phase_within. }
-        assert (NT : Forall nomm (tts ++ ve)).
-        { apply Forall_app. split; auto. eapply within_noseg. apply tt_phase_within. }
+          - eapply within_noseg. apply met_dir_phase_within.
+          - eapply within_noseg. apply tt_phase_within. }
         unfold met_tail. rewrite KF. destruct (filter nexp (mmeta st)) as [|a r] eqn:EK.
-        + replace (le ++ (mes ++ fst dph ++ [EMmRemove] ++ tts) ++ ve) with ((R ++ []) ++ EMmRemove :: (tts ++ ve))
+        + replace (le ++ (mes ++ fst dph ++ tts ++ [EMmRemove]) ++ ve) with ((R ++ []) ++ EMmRemove :: ve)
             by (unfold R; rewrite <- !app_assoc; reflexivity).
-          destruct (mm_split_prefix R [] (tts ++ ve) EMmRemove [] (mmeta st) (dirs st) k) as [H|[H1 H2]]; auto.
+          destruct (mm_split_prefix R [] ve EMmRemove [] (mmeta st) (dirs st) k) as [H|[H1 H2]]; auto.
           * rewrite app_nil_r. exact NR.
-          * right. split; auto. intros s0 Hs Hx Hin. apply H2 in Hin. eapply GONE; eauto.
-        + replace (le ++ (mes ++ fst dph ++ [EMmTmp; EMmSet (a :: r)] ++ tts) ++ ve) with ((R ++ [EMmTmp]) ++ EMmSet (a :: r) :: (tts ++ ve))
+          * right. split; auto. split.
+            -- intros s0 Hs Hx Hin. apply H2 in Hin. eapply GONE; eauto.
+            -- intros t q Ht Hq Hin. apply H2 in Hin. eapply TGONE; eauto.
+        + replace (le ++ (mes ++ fst dph ++ tts ++ [EMmTmp; EMmSet (a :: r)]) ++ ve) with ((R ++ [EMmTmp]) ++ EMmSet (a :: r) :: ve)
             by (unfold R; rewrite <- !app_assoc; reflexivity).
-          destruct (mm_split_prefix R [EMmTmp] (tts ++ ve) (EMmSet (a :: r)) (a :: r) (mmeta st) (dirs st) k) as [H|[H1 H2]]; auto.
+          destruct (mm_split_prefix R [EMmTmp] ve (EMmSet (a :: r)) (a :: r) (mmeta st) (dirs st) k) as [H|[H1 H2]]; auto.
           * apply Forall_app. split; auto. repeat constructor.
-          * right. split; auto. intros s0 Hs Hx Hin. apply H2 in Hin. eapply GONE; eauto.
+          * right. split; auto. split.
+            -- intros s0 Hs Hx Hin. apply H2 in Hin. eapply GONE; eauto.
+            -- intros t q Ht Hq Hin. apply H2 in Hin. eapply TGONE; eauto.
     Qed.
 
     Lemma prefix_unrot k : unrot (interrupted k hz org st) = unrot st.
@@ -1344,8 +1374,6 @@ Section PassLemmas.
       rewrite Yk_mmeta. pose proof (wf_nd_mm st W) as H.
       destruct (prefix_mmeta k) as [E|[E _]]; cbn zeta in E; rewrite E; auto. apply NoDup_map_filter. exact H.
     Qed.
-    Lemma Yk_ok k : mmem_ok hz2 org (Yk k).
-    Proof. intros s Hs. rewrite Yk_mmem. apply in_map. apply sel_met_sub in Hs. tauto. Qed.
 
     Lemma listing_mem_char (f : seg -> bool) L q : NoDup (map s_dir L) ->
       (In q (map s_dir L) /\ forall s, In s (filter f L) -> s_dir s <> q) <-> In q (map s_dir (filter (fun s => negb (f s)) L)).
@@ -1363,7 +1391,7 @@ Section PassLemmas.
 
     Lemma canon_mmeta k : mmeta (run hz2 org (Yk k)) = FM.
     Proof.
-      rewrite run_mmeta by (auto using Yk_mm_nd, Yk_ok). unfold sel_met.
+      rewrite run_mmeta. unfold sel_met.
       rewrite keep_of_filter by apply Yk_mm_nd. apply Yk_mm_filter.
     Qed.
 
@@ -1376,7 +1404,7 @@ Section PassLemmas.
 
     Lemma canon_mmem k q : In q (mmem (run hz2 org (Yk k))) <-> In q (map s_dir FM).
     Proof.
-      etransitivity; [apply (run_mmem hz2 org (Yk k) (Yk_mm_nd k) (Yk_ok k))|]. rewrite Yk_mmem.
+      etransitivity; [apply (run_mmem hz2 org (Yk k))|]. rewrite Yk_mmem.
       etransitivity; [apply (listing_mem_char exp2 (mmeta (Yk k)) q (Yk_mm_nd k))|].
       fold nexp2. rewrite Yk_mm_filter. reflexivity.
     Qed.
@@ -1399,11 +1427,11 @@ Section PassLemmas.
             eapply (run_dirs_gone_log hz2 org (Yk k) s); eauto using is_prefix_refl.
             apply filter_In. split; auto. rewrite Yk_segmeta, E. apply in_or_app. left. apply filter_In. split; auto.
             unfold nexp. unfold exp in Ex1. rewrite Ex1. reflexivity.
-        + pose proof (prefix_mmeta k) as PS; cbn zeta in PS; destruct PS as [E|[E G]].
-          * eapply (run_dirs_gone_met hz2 org (Yk k) (Yk_mm_nd k) (Yk_ok k) s); eauto using is_prefix_refl.
+        + pose proof (prefix_mmeta k) as PS; cbn zeta in PS; destruct PS as [E|[E [G _]]].
+          * eapply (run_dirs_gone_met hz2 org (Yk k) s); eauto using is_prefix_refl.
             apply filter_In. split; auto. rewrite Yk_mmeta, E. exact Hs.
           * destruct (exp s) eqn:Ex1; [eapply G; eauto|].
-            eapply (run_dirs_gone_met hz2 org (Yk k) (Yk_mm_nd k) (Yk_ok k) s); eauto using is_prefix_refl.
+            eapply (run_dirs_gone_met hz2 org (Yk k) s); eauto using is_prefix_refl.
             apply filter_In. split; auto. rewrite Yk_mmeta, E. apply filter_In. split; auto.
             unfold nexp. unfold exp in Ex1. rewrite Ex1. reflexivity.
         + eapply (run_dirs_gone_log hz2 org (Yk k) s); eauto using is_prefix_refl.
@@ -1421,6 +1449,45 @@ Section PassLemmas.
             destruct (wf_same_or_apart st W s x Hs Hx1) as [->|H]; [unfold exp2 in Ex; congruence|exact H].
           * apply in_map_iff in Ht as [x [<- Hx]]. apply Yk_mm_sub in Hx.
             apply (wf_tt _ W); [apply in_map; exact Hx|apply in_seg_dirs; exact Hs].
+    Qed.
+
+    (* no tags-tree directory of a removed metrics segment is left behind, wherever the pass was stopped *)
+    Lemma tt_gone_listed k s q : In s (mmeta (Yk k)) -> exp2 s = true ->
+      (forall s', In s' (mmeta st) -> exp2 s' = false -> s_tt s' <> s_tt s) ->
+      is_prefix (s_tt s) q = true -> ~ In q (dirs (run hz2 org (Yk k))).
+    Proof.
+      intros Hs Ex Hn Hq. apply run_tt_gone with (t := s_tt s); auto.
+      apply met_tts_In.
+      - apply filter_In. split; auto.
+      - intros s' Hs' Ex'. apply Hn; auto. apply Yk_mm_sub in Hs'. exact Hs'.
+      - apply Yk_mm_nd.
+    Qed.
+
+    Theorem interrupted_tagstree_removed k s q : In s (mmeta st) -> exp2 s = true ->
+      (forall s', In s' (mmeta st) -> exp2 s' = false -> s_tt s' <> s_tt s) ->
+      is_prefix (s_tt s) q = true -> ~ In q (dirs (run hz2 org (Yk k))).
+    Proof.
+      intros Hs Ex Hn Hq.
+      pose proof (prefix_mmeta k) as PS; cbn zeta in PS; destruct PS as [E|[E [_ GT]]].
+      - apply (tt_gone_listed k s q); auto. rewrite Yk_mmeta, E. exact Hs.
+      - destruct (exp s) eqn:Ex1.
+        + (* removed by the interrupted pass; is its tags tree still named by a line that pass preserved? *)
+          destruct (mem_path (s_tt s) (map s_tt (filter nexp (mmeta st)))) eqn:EM.
+          * apply mem_path_In in EM. apply in_map_iff in EM as [s1 [Et Hs1]]. apply filter_In in Hs1 as [Hs1 N1].
+            assert (Ex2 : exp2 s1 = true).
+            { destruct (exp2 s1) eqn:E2; auto. exfalso. eapply Hn; eauto. }
+            apply (tt_gone_listed k s1 q); auto.
+            -- rewrite Yk_mmeta, E. apply filter_In. auto.
+            -- intros s' Hs' E'. rewrite Et. apply Hn; auto.
+            -- rewrite Et. exact Hq.
+          * intros HI. apply run_dirs_incl in HI. rewrite Yk_dirs in HI. revert HI. apply (GT (s_tt s)); auto.
+            apply met_tts_In.
+            -- apply filter_In. auto.
+            -- intros s' Hs' E' Et. apply mem_path_false in EM. apply EM. rewrite <- Et. apply in_map. apply filter_In. split; auto.
+               unfold nexp. rewrite E'. reflexivity.
+            -- apply wf_nd_mm. exact W.
+        + apply (tt_gone_listed k s q); auto. rewrite Yk_mmeta, E. apply filter_In. split; auto.
+          unfold nexp. unfold exp in Ex1. rewrite Ex1. reflexivity.
     Qed.
 
     Lemma Yk_0 : Yk 0 = restart st.
@@ -1532,7 +1599,7 @@ Section PassLemmas.
   (* ---------------- a stale segmeta.json.tmp ---------------- *)
   (* the temporary file is opened with O_TRUNC: whatever an interrupted pass left in it, the
      pass ends with segmeta.json = the lines that were not selected *)
-  Theorem stale_tmp_harmless hz org st c : wf st = true -> mmem_ok hz org st ->
+  Theorem stale_tmp_harmless hz org st c : wf st = true ->
     let A := run hz org (with_seg_tmp st c) in
     segmeta A = filter (fun s => negb (expired hz org s)) (segmeta st) /\
     mmeta A = filter (fun s => negb (expired hz org s)) (mmeta st) /\
@@ -1540,11 +1607,10 @@ Section PassLemmas.
     (forall s, In s (segmeta st ++ mmeta st) -> In (s_dir s) (dirs st) ->
        (In s (segmeta A ++ mmeta A) <-> In (s_dir s) (dirs A))).
   Proof.
-    intros Hwf OK.
+    intros Hwf.
     assert (Hwf' : wf (with_seg_tmp st c) = true) by exact Hwf.
-    assert (OK' : mmem_ok hz org (with_seg_tmp st c)) by exact OK.
-    destruct (metadata_lists_survivors hz org (with_seg_tmp st c) Hwf' OK') as [A1 [A2 A3]].
-    destruct (metadata_lists_survivors hz org st Hwf OK) as [B1 _].
+    destruct (metadata_lists_survivors hz org (with_seg_tmp st c) Hwf') as [A1 [A2 A3]].
+    destruct (metadata_lists_survivors hz org st Hwf) as [B1 _].
     cbn zeta. split; [exact A1|]. split; [exact A2|]. split; [rewrite B1; exact A1|]. exact A3.
   Qed.
 
@@ -1607,8 +1673,6 @@ Section PassLemmas.
       apply G1 in H1. rewrite H2 in H1. discriminate.
     Qed.
 
-    Lemma g_ok : mmem_ok hz org st.
-    Proof. intros s Hs. rewrite g_nomet in Hs by reflexivity. contradiction. Qed.
 
     Lemma g_tables t : In (org, t) (vtables st) -> In t (map s_table (FL org st hz)).
     Proof.
@@ -1710,7 +1774,7 @@ Section PassLemmas.
       (forall q, In q (mem A) <-> In q (mem B)) /\ (forall q, In q (mmem A) <-> In q (mmem B)) /\
       dirs A = dirs B /\ vtables A = vtables B.
     Proof.
-      cbn zeta. destruct (interrupted_then_repeated_data hz org st Hwf g_ok hz (N.le_refl hz) k) as [A1 [A2 [A3 [A4 [A5 _]]]]]. cbn zeta in *.
+      cbn zeta. destruct (interrupted_then_repeated_data hz org st Hwf hz (N.le_refl hz) k) as [A1 [A2 [A3 [A4 [A5 _]]]]]. cbn zeta in *.
       repeat split; try assumption; try apply A4; try apply A5.
       - (* directories: both sides are filters of the directories of st with the same members *)
         change (restart st) with (Yk hz org st 0). change (restart (interrupted k hz org st)) with (Yk hz org st k).
@@ -1759,14 +1823,39 @@ Definition w_tt_store : store :=
     [[1]; [1;2]; [1;2;3]; [1;2;3;4]; [1;2;6]; [1;2;6;4]; [1;5]; [1;5;3]; [1;5;3;4]; [1;5;6]; [1;5;6;4]]
     [] None false [].
 
+(* the code before the fix removed the tags-tree directories after the rename *)
 Lemma tagstree_left_behind_witness :
   wf w_tt_store = true /\ mmem_ok 500000 0 w_tt_store /\
-  dirs (run idl idl idl 500000 0 (restart (interrupted idl idl idl 5 500000 0 w_tt_store)))
-  <> dirs (run idl idl idl 500000 0 (restart w_tt_store)).
+  dirs (run_prefix idl idl idl 500000 0 (restart (interrupted_prefix idl idl idl 5 500000 0 w_tt_store)))
+  <> dirs (run_prefix idl idl idl 500000 0 (restart w_tt_store)) /\
+  (* the repaired pass: every stop point of this store gives the same directories *)
+  forallb (fun k => list_eqb path_eqb
+                      (dirs (run idl idl idl 500000 0 (restart (interrupted idl idl idl k 500000 0 w_tt_store))))
+                      (dirs (run idl idl idl 500000 0 (restart w_tt_store)))) (seq 0 12) = true.
 Proof.
   split; [vm_compute; reflexivity|]. split.
   - intros s Hs. vm_compute in Hs. destruct Hs as [<-|[]]. vm_compute. auto.
-  - vm_compute. discriminate.
+  - split; [vm_compute; discriminate|vm_compute; reflexivity].
+Qed.
+
+(* one expired metrics segment alone in its shard: the climb removes [1;2;3] and then [1;2]; the code
+   before the fix, stopped between the two, could not resume the climb from the missing [1;2;3] *)
+Definition w_cl_store : store :=
+  mkstore [] [mkseg [1;2;3;4] KMet 100 100 0 0 [1;5;3;4]]
+    [] [[1;2;3;4]]
+    [[1]; [1;2]; [1;2;3]; [1;2;3;4]; [1;5]; [1;5;3]; [1;5;3;4]; [1;9]]
+    [] None false [].
+
+Lemma empty_parent_left_behind_witness :
+  wf w_cl_store = true /\
+  In [1;2] (dirs (run_prefix idl idl idl 500000 0 (restart (interrupted_prefix idl idl idl 3 500000 0 w_cl_store)))) /\
+  ~ In [1;2] (dirs (run_prefix idl idl idl 500000 0 (restart w_cl_store))) /\
+  forallb (fun k => list_eqb path_eqb
+                      (dirs (run idl idl idl 500000 0 (restart (interrupted idl idl idl k 500000 0 w_cl_store))))
+                      (dirs (run idl idl idl 500000 0 (restart w_cl_store)))) (seq 0 12) = true.
+Proof.
+  split; [vm_compute; reflexivity|]. split; [vm_compute; auto 10|]. split; [|vm_compute; reflexivity].
+  vm_compute. intros H. repeat (destruct H as [H|H]; try discriminate). exact H.
 Qed.
 
 (* index 1 loses its only segment, index 2 keeps one; the pass OF THE CODE BEFORE THE FIX is stopped
@@ -1795,13 +1884,18 @@ Definition w_ab_store : store :=
     [] None false [].
 Definition w_ab_seg : seg := mkseg [1;2;3;4] KMet 100 100 0 0 [1;5;3;4].
 
+(* the code before the fix: DeleteMetricsSegmentData returned at the entry that is not in memory *)
 Lemma metrics_abort_witness :
   wf w_ab_store = true /\ In w_ab_seg (mmeta w_ab_store) /\ expired 500000 0 w_ab_seg = true /\
   In (s_dir w_ab_seg) (mmem w_ab_store) /\
-  In w_ab_seg (mmeta (run idl idl idl 500000 0 w_ab_store)) /\
-  In (s_dir w_ab_seg) (dirs (run idl idl idl 500000 0 w_ab_store)) /\
-  searchable (run idl idl idl 500000 0 w_ab_store) w_ab_seg = false.
-Proof. repeat split; try (vm_compute; reflexivity); vm_compute; auto. Qed.
+  In w_ab_seg (mmeta (run_prefix idl idl idl 500000 0 w_ab_store)) /\
+  In (s_dir w_ab_seg) (dirs (run_prefix idl idl idl 500000 0 w_ab_store)) /\
+  searchable (run_prefix idl idl idl 500000 0 w_ab_store) w_ab_seg = false /\
+  (* the repaired pass removes both expired segments *)
+  mmeta (run idl idl idl 500000 0 w_ab_store) = [] /\ ~ In (s_dir w_ab_seg) (dirs (run idl idl idl 500000 0 w_ab_store)).
+Proof.
+  repeat split; try (vm_compute; reflexivity); try (vm_compute; auto; fail).
+Qed.
 
 (* the guard of the full interruption theorem is satisfiable by a store in which the pass has work to do *)
 Definition w_g_store : store :=
